@@ -544,10 +544,12 @@ def m_last(c):
         try:
             if l is not None and not l.is_const():
                 s1.add_le(LinForm.constant(1) - l)
-            if loc is not None:
-                # reference to the summary element of the container itself
-                c.ret(opt_some(Ref(loc[0], loc[1] + ("elem",), c.name.endswith("_mut"))), st=s1)
+            if loc is not None and c.name.endswith("_mut"):
+                # reference to the summary element of the container itself (writes through it are weak updates of the summary)
+                c.ret(opt_some(Ref(loc[0], loc[1] + ("elem",), True)), st=s1)
             else:
+                # shared borrow: a private copy of one element (the container cannot change while the borrow lives), so facts learnt about
+                # this element (e.g. its enum variant after `is_known()`) can be recorded on it without touching the summary
                 cell = new_tmp(c, s1, elem, "last")
                 c.ret(opt_some(Ref(cell, ())), st=s1)
         except Infeasible:
